@@ -541,3 +541,19 @@ func vInitialValuesComputed() (int, []string) {
 //@   requires typeIs(_value, pr.DimOrS)
 //@   unclaimed call-*-pre* "validated values"
 //@   ensures[normal-is-zero] _value.(pr.DimOrS).S == "normal" ==> typeIs(result, pr.DimOrS) && result.(pr.DimOrS).S == "" && result.(pr.DimOrS).Value == 0
+
+// the cache of computed values of a style: a partial map from property to value. After delete the property
+// has no cached value (what `get` reports), whatever its index, and the other entries are untouched:
+// ComputedStyle.Get relies on it to recompute text decorations and `page` from the parent.
+//@ func (propsCache).get
+//@   props C04
+//@   nopanic
+//@   modifies nothing
+//@   ensures key.KnownProp != 0 && int(key.KnownProp) < len(c.known) ==> out == c.known[key.KnownProp] && ok == (out != nil)
+//@   ensures key.KnownProp != 0 && int(key.KnownProp) >= len(c.known) ==> !ok && out == nil
+//@ func (propsCache).delete
+//@   props C04
+//@   nopanic
+//@   modifies c.known[..], c.vars[..]
+//@   ensures[gone] key.KnownProp != 0 && int(key.KnownProp) < len(c.known) ==> c.known[key.KnownProp] == nil
+//@   ensures[others-kept] key.KnownProp != 0 ==> forall(j, 0, len(c.known), j != int(key.KnownProp) ==> c.known[j] == old(c.known[j]))
